@@ -210,6 +210,12 @@ func (ev *Evaluator) installHook() {
 				ev.invariant = fmt.Sprintf("a function body started with %d operand(s) already on its value stack (top: %s)", d, Describe(m.VerifStackPeek(0)))
 			}
 		}
+		// invariant: a run starts on an empty value stack (whatever the last run left behind)
+		if atomic.LoadInt64(&ev.steps) == 1 && ip == 0 && ev.invariant == "" {
+			if d := m.VerifStackDepth(); d != 0 {
+				ev.invariant = fmt.Sprintf("a run started with %d operand(s) already on the value stack (top: %s)", d, Describe(m.VerifStackPeek(0)))
+			}
+		}
 		ev.prevCall = op == code.OpCall
 		if ev.OpHist != nil && int(op) < 64 {
 			atomic.AddInt64(&ev.OpHist[op], 1)
